@@ -1,10 +1,14 @@
 #!/bin/bash
-# Offline set-up after a fresh restore: build every Lean module (models, lemmas, property theorems)
-# and install the harness-only Python dependency (jsonschema) from the offline wheelhouse.
-set -e
+# Offline set-up after a fresh restore: install the harness-only Python dependency (jsonschema) from the
+# offline wheelhouse, regenerate the translator outputs (lean/GemseoVerif/Gen/*.lean) from /repo's current
+# sources, and build every Lean module (models, lemmas, property theorems) so that the checks only have to
+# do incremental builds. A Lean build failure here is not a verdict: the check of the property concerned
+# rebuilds its own modules and reports it.
 cd "$(dirname "$0")"
 if [ ! -d .pydeps/jsonschema ]; then
   /venv/bin/pip install --quiet --no-index --find-links /opt/veriftools/wheels --target .pydeps jsonschema >/dev/null 2>&1 || echo "warning: jsonschema not installed (C15 reference validator unavailable)"
 fi
+/venv/bin/python tools/regen.py 2>&1 | grep -v mplstyle
 python3 tools/gen_root.py
 cd lean && lake build 2>&1 | tail -5
+exit 0
